@@ -182,7 +182,8 @@ CONFIG = {
                  "receiver policy prompt/every-k/stop-after-j/parked/absent/free, cancellation at a drawn instant incl. exactly on a tick (timer tie), just before/after, mid-interval, before the "
                  "call, after close; invalid inputs must panic. Oracle: first value immediately (len==1 on return, closed+empty if pre-cancelled), <= count values, exact non-decreasing tick "
                  "timestamps, <=1 buffered at every quiescent point, closed after the count-th value or at the first quiescent point after cancellation, <=1 tick forwarded after cancel, "
-                 "producer goroutine gone (leak oracle). non-trivial = count>=3, cancellation while the producer is alive and a value still buffered at that instant; distinct = hash of the case."),
+                 "producer goroutine gone (leak oracle). non-trivial = count>=3, cancellation while the producer is alive and a value still buffered at that instant; distinct = hash of the case. "
+                 "attempt_crowd: 30-600 live attempts (rate 1h) first; then one more attempt on its own context: first value at once, <=2 values after its cancellation, closed at quiescence, <= count values; then the crowd is cancelled and every channel must be closed; non-trivial = >=128 live attempts."),
         "jobs": [{"name": "attempt_crowd", "test": "TestC20Crowd", "checks": {"quick": 400, "thorough": 40000}, "shards": {"quick": 2, "thorough": 8}, "stall_sig": "C20/stall"},
                  {"name": "attempt", "test": "TestC20Attempt", "steps": 12, "checks": {"quick": 16000, "thorough": 2400000}, "shards": {"quick": 8, "thorough": 16}, "env": {"VKIT_PROFILE": "C20"}},
                  {"name": "attempt_free", "test": "TestC20Free", "checks": {"quick": 4000, "thorough": 600000}, "shards": {"quick": 4, "thorough": 16}},
@@ -327,7 +328,8 @@ CONFIG = {
         "rule": BUF_MODEL + "non-trivial = a waking event (Put / cancel / Close) issued while a Get was observed blocked at quiescence; distinct = hash of the executed op trace." + WAITCOND_RULE + BUF_FREE +
                 " Plus a gate probe using the verif instrumentation points inside a bubble: Get's async waiter or a direct WaitCond call is stopped between predicate and park, the "
                 "waking event (cancel / Put / Close / set+Broadcast) is issued inside that window (optionally after the cancellation watcher reached its wake-up point, then 0-200 yields), "
-                "then the gate opens; at quiescence the waiter must have returned with the right outcome; non-trivial = the gate was hit.",
+                "then the gate opens; at quiescence the waiter must have returned with the right outcome; non-trivial = the gate was hit. "
+                "get_crowd: 60-300 Gets parked on 1-3 buffers first, then on another buffer a cancelled Get must return its context's error and a Get must be woken by a Put, then every parked Get is woken by one Put per buffer; non-trivial = >=64 parked.",
         "jobs": [{"name": "get_crowd", "test": "TestC05Crowd", "checks": {"quick": 400, "thorough": 40000}, "shards": {"quick": 2, "thorough": 8}, "stall_sig": "C05/stall"},
                  buffree("C05", 12000, 600000), bufstep("C05", 24000, 800000), waitcond("C05", 12000, 400000),
                  {"name": "probe", "test": "TestC05Probe", "checks": {"quick": 8000, "thorough": 200000}, "shards": {"quick": 4, "thorough": 16}}],
@@ -336,7 +338,9 @@ CONFIG = {
         "rule": BUF_MODEL + "non-trivial = a Close launched while another op on the handle was in flight or uncommitted reads existed AND >=2 handles closed in non-creation order; distinct = hash of the executed op trace. " + CHAN_MODEL + WAITCOND_RULE +
                 " The goroutine-leak oracles of the Exclusive, context-combinator, Workers, Worker, ExponentialRetry and LinearAttempt engines (see C09/C10, C16, C14, C17, C18, C20) "
                 "are run under this property as well: after every handle is closed / context cancelled / call returned, the bubble must hold no other goroutine. "
-                "conslin (see C02) runs with a concurrent Close of the shared consumer: Close must return (once nothing is uncommitted), Done closed, Diff unregistered; a wedged program is a violation.",
+                "conslin (see C02) runs with a concurrent Close of the shared consumer: Close must return (once nothing is uncommitted), Done closed, Diff unregistered; a wedged program is a violation. "
+                "commitrace: a race lane in which Commit/Commit or Commit/Rollback on the same uncommitted reads are released by one barrier (sweeping offsets, Buffer lock kept busy by a spinning cleaner "
+                "and an observer): exactly one resolution succeeds, the consumer continues at the right value, consumer.Close and Buffer.Close return, the second Close fails.",
         "jobs": [{"name": "commitrace", "test": "TestConsCommitRace", "checks": {"quick": 400, "thorough": 40000}, "shards": {"quick": 4, "thorough": 16}, "stall_sig": "C12/stall"},
                  {"name": "closerace", "test": "TestBufCloseRace", "checks": {"quick": 800, "thorough": 80000}, "shards": {"quick": 8, "thorough": 16}, "stall_sig": "C12/stall"},
                  buffree("C12", 12000, 600000), bufstep("C12", 24000, 800000), chanstep("C12", 12000, 400000), waitcond("C12", 8000, 300000),
